@@ -409,24 +409,24 @@ impl vstd::std_specs::convert::TryFromSpecImpl<&TExpr> for u32 {
         'TimingFloatLiteral::to_expr': dict(props=['C08', 'C06'], ret='r', spec='ensures r == Expr::Literal(Literal::TimingFloatLiteral(self)),'),
         'BinaryExpr::to_expr': dict(props=['C08', 'C06'], ret='r', spec='ensures r == Expr::BinaryExpr(Box::new(self)),'),
         # literal classes and their types (C08): all const
-        'BoolLiteral::to_texpr': dict(TYP, spec='ensures r.ty == Type::Bool(IsConst::True), r.expression == Expr::Literal(Literal::Bool(self)),        //@C08:literal-type'),
-        'IntLiteral::to_texpr': dict(TYP, spec='ensures r.ty is Int && ' + T_ + 'sp_is_const(r.ty), r.expression == Expr::Literal(Literal::Int(self)),       //@C08:literal-type'),
-        'IntLiteral::to_imaginary_texpr': dict(TYP, spec='ensures !co_imag_int() ==> r.ty is Complex, ' + T_ + 'sp_is_const(r.ty), r.expression == Expr::Literal(Literal::ImaginaryInt(self)),   //@C08:literal-type'),
-        'FloatLiteral::to_texpr': dict(TYP, spec='ensures r.ty is Float && ' + T_ + 'sp_is_const(r.ty), r.expression == Expr::Literal(Literal::Float(self)),   //@C08:literal-type'),
-        'FloatLiteral::to_imaginary_texpr': dict(TYP, spec='ensures r.ty is Complex && ' + T_ + 'sp_is_const(r.ty), r.expression == Expr::Literal(Literal::ImaginaryFloat(self)),   //@C08:literal-type'),
-        'TimingIntLiteral::to_texpr': dict(TYP, spec='ensures r.ty == Type::Duration(IsConst::True), r.expression == Expr::Literal(Literal::TimingIntLiteral(self)),   //@C08:literal-type'),
-        'TimingFloatLiteral::to_texpr': dict(TYP, spec='ensures r.ty == Type::Duration(IsConst::True), r.expression == Expr::Literal(Literal::TimingFloatLiteral(self)),   //@C08:literal-type'),
-        'Cast::to_texpr': dict(TYP, spec='ensures r.ty == self.typ, r.expression == Expr::Cast(Box::new(self)),                                       //@C08:cast-has-target-type'),
+        'BoolLiteral::to_texpr': dict(TYP, spec='ensures r.ty == Type::Bool(IsConst::True), r.expression == Expr::Literal(Literal::Bool(self)),        //@C08,C06:literal-type'),
+        'IntLiteral::to_texpr': dict(TYP, spec='ensures r.ty is Int && ' + T_ + 'sp_is_const(r.ty), r.expression == Expr::Literal(Literal::Int(self)),       //@C08,C06:literal-type'),
+        'IntLiteral::to_imaginary_texpr': dict(TYP, spec='ensures !co_imag_int() ==> r.ty is Complex, ' + T_ + 'sp_is_const(r.ty), r.expression == Expr::Literal(Literal::ImaginaryInt(self)),   //@C08,C06:literal-type'),
+        'FloatLiteral::to_texpr': dict(TYP, spec='ensures r.ty is Float && ' + T_ + 'sp_is_const(r.ty), r.expression == Expr::Literal(Literal::Float(self)),   //@C08,C06:literal-type'),
+        'FloatLiteral::to_imaginary_texpr': dict(TYP, spec='ensures r.ty is Complex && ' + T_ + 'sp_is_const(r.ty), r.expression == Expr::Literal(Literal::ImaginaryFloat(self)),   //@C08,C06:literal-type'),
+        'TimingIntLiteral::to_texpr': dict(TYP, spec='ensures r.ty == Type::Duration(IsConst::True), r.expression == Expr::Literal(Literal::TimingIntLiteral(self)),   //@C08,C06:literal-type'),
+        'TimingFloatLiteral::to_texpr': dict(TYP, spec='ensures r.ty == Type::Duration(IsConst::True), r.expression == Expr::Literal(Literal::TimingFloatLiteral(self)),   //@C08,C06:literal-type'),
+        'Cast::to_texpr': dict(TYP, spec='ensures r.ty == self.typ, r.expression == Expr::Cast(Box::new(self)),                                       //@C08,C06:cast-has-target-type'),
         'MeasureExpression::to_texpr': dict(TYP, spec='''ensures
     (self.operand.ty is Qubit || self.operand.ty is HardwareQubit) ==> r.ty == Type::Bit(IsConst::False),
     self.operand.ty is QubitArray ==> r.ty == Type::BitArray(self.operand.ty->QubitArray_0, IsConst::False),
     !(self.operand.ty is Qubit || self.operand.ty is HardwareQubit || self.operand.ty is QubitArray) ==> r.ty == Type::Undefined,   //@C08:measure-has-bit-shape
-    r.expression == Expr::MeasureExpression(Box::new(self)),'''),
+    r.expression == Expr::MeasureExpression(Box::new(self)),                                  //@C06:expression-kind'''),
         'UnaryExpr::to_texpr': dict(TYP, spec='''ensures
     self.op is Not ==> r.ty == Type::Bool(IsConst::False),
     !(self.op is Not) ==> r.ty == self.operand.ty,                                          //@C08:unary-type
-    r.expression == Expr::UnaryExpr(Box::new(self)),'''),
-        'BinaryExpr::to_texpr': dict(TYP, spec='ensures r.ty == typ, r.expression == Expr::BinaryExpr(Box::new(self)),'),
+    r.expression == Expr::UnaryExpr(Box::new(self)),                                        //@C06:expression-kind'''),
+        'BinaryExpr::to_texpr': dict(TYP, spec='ensures r.ty == typ, r.expression == Expr::BinaryExpr(Box::new(self)),     //@C08,C06:expression-kind'),
         'BinaryExpr::new_texpr_with_cast': dict(TYP, spec='''ensures
     r.expression is BinaryExpr, r.expression->BinaryExpr_0.op == op,
     // arithmetic: the expression has the common type of its operands, and each operand either
@@ -779,6 +779,7 @@ ensures
     grows(*old(context), *final(context)),
     // base type <-> keyword, const flag = argument, bit[n] / qubit[n] -> one-dimensional registers of length n
     r == type_of(scalar_type.sp_kind(), written_width(r), isconst),                                                  //@C09:declared-type-as-written
+    width_as_written(*scalar_type, r),                                                                               //@C09:width-as-written
 '''))
     zov.setdefault('literal_to_asg_texpr', {}).update(dict(ret='res', props=['C06', 'C08', 'C03'], spec='''ensures res is Some,
     // every literal class maps to the graph literal of the same class, typed as that class (const)
@@ -870,6 +871,12 @@ ensures
     },     //@C06:index-operator-keeps-its-construct'''))
     zov.setdefault('range_expression_to_asg_type', {}).update(dict(ret='r', props=['C06', 'C03'], spec='''ensures grows(*old(context), *final(context)),
     (r.step is Some) == (range_expr.sp_start_step_stop().1 is Some),     //@C06:range-keeps-its-step'''))
+    # C09: a parameter type is the type written -- keyword, width / register length (a register of length 1 is still a register), const flag as given
+    zov.setdefault('param_type_to_type', {}).update(dict(ret='r', props=['C09', 'C03'], spec='''ensures grows(*old(context), *final(context)),
+    match *param_type {
+        synast::ParamType::ScalarType(st) => r == type_of(st.sp_kind(), written_width(r), isconst) && width_as_written(st, r),
+        synast::ParamType::ArrayRefType(_) => r == Type::ToDo,
+    },                                                                                                               //@C09:parameter-type-as-written'''))
     for fn in ['range_expression_to_asg_type', 'set_expression_to_asg_type', 'index_operator_to_asg_type', 'expression_list_to_asg_type', 'call_expr_to_asg_texpr', 'param_type_to_type', 'io_declaration_statement_to_asg_stmt']:
         zov.setdefault(fn, {}).setdefault('spec', 'ensures grows(*old(context), *final(context)),')
     zov.setdefault('expr_to_asg_texpr', {})['ghost'] = list(zov.get('expr_to_asg_texpr', {}).get('ghost', [])) + [
